@@ -6,6 +6,7 @@ import sys
 sys.path.insert(0, os.path.join(os.path.dirname(os.path.abspath(__file__)), "..", "bind", "py"))
 import common
 import machine
+import wasm_encode
 from common import SEED, Verdict, main_wrap, tlc, tlc_ok, write_ndjson, read_ndjson
 from wasmgen import b32, b64
 
@@ -145,6 +146,42 @@ def offset_items(rng, n):
     return items
 
 
+def big_offsets(v, wd):
+    """Segment offsets in the upper half of the 32-bit range need a memory of more than 2 GiB, and addresses TLC's 32-bit
+    integers cannot hold: this corner is checked outside the model with the trivial rule "byte i of the segment lies at
+    offset + i" (the memory is allocated lazily by the host; only the touched pages become resident)."""
+    offs = [0x7FFFFFFE, 0x80000008, 0x80000100, 0x8001FFFC, 0x7FFF0000]
+    segs = [{"mode": "active", "offset": ["i32.const", b32(o)], "bytes": [0xB0 + k, 0x10 + k, 0xEE, 0x01 + k]} for k, o in enumerate(offs)]
+    m = {"types": [{"p": [], "r": []}], "funcs": [{"type": 0, "locals": [], "body": [["end"]]}],
+         "memory": {"min": 32770, "max": 32770}, "data": segs,
+         "exports": [{"name": "memory", "kind": "memory", "idx": 0}, {"name": "f", "kind": "func", "idx": 0}]}
+    d = os.path.join(wd, "bigoff")
+    os.makedirs(d)
+    open(os.path.join(d, "big.wasm"), "wb").write(wasm_encode.encode(machine.enc_module(machine.norm_module(m))))
+    w2c2 = common.build_w2c2(os.path.join(wd, "w2c2bin"))
+    rc, so, se = common.run([w2c2, "-t", "1", "big.wasm", "big.c"], cwd=d, timeout=120)
+    if rc != 0:
+        v.deviation("offset:big:translate", {"stderr": se[-400:]})
+        return 0
+    checks = "".join("  for (k = 0; k < 4; k++) printf(\"%%u \", (unsigned)m->data[(U64)%uU + k]);\n" % o for o in offs)
+    open(os.path.join(d, "main.c"), "w").write(
+        '#include <stdio.h>\n#include "big.h"\nvoid trap(Trap t) { printf("trap %d\\n", (int)t); }\n'
+        'int main(void) { static bigInstance i; wasmMemory* m; int k; bigInstantiate(&i, NULL); m = big_memory(&i);\n' + checks +
+        '  printf("\\n"); return 0; }\n')
+    n = 0
+    for cc, opt in (("gcc", "-O1"), ("clang", "-O0")):
+        rc, so, se = common.run([cc, opt, "-w", "-I", os.path.join(common.REPO, "w2c2"), "-DWASM_THREADS_PTHREADS", "main.c", "big.c", "-o", "big-" + cc, "-lm", "-lpthread"], cwd=d, timeout=300)
+        if rc != 0:
+            v.deviation("offset:big:compile", {"compiler": cc, "stderr": se[-400:]})
+            continue
+        rc, so, se = common.run([os.path.join(d, "big-" + cc)], cwd=d, timeout=120)
+        want = " ".join(str(b) for s_ in segs for b in s_["bytes"])
+        n += len(offs)
+        if rc != 0 or so.strip() != want:
+            v.deviation("offset:big:bytes", {"compiler": cc, "offsets": [hex(o) for o in offs], "want": want, "got": so.strip()[:200], "rc": rc})
+    return n
+
+
 def sig(it, k, why, build, e, a):
     if it["id"].startswith("c"):
         op = it["script"][k - 1]["export"]
@@ -193,6 +230,11 @@ def main():
     builds = [{"name": "gcc-O0", "cc": "gcc", "cflags": ("-O0",)}, {"name": "gcc-O2", "cc": "gcc", "cflags": ("-O2",)},
               {"name": "clang-O0", "cc": "clang", "cflags": ("-O0",)}, {"name": "clang-O2", "cc": "clang", "cflags": ("-O2",)}]
     st, exp = machine.replay(v, items, builds, sigfn=sig)
+    wd2 = common.scratch("c07big-")
+    try:
+        nbig = big_offsets(v, wd2)
+    finally:
+        shutil.rmtree(wd2, ignore_errors=True)
     cov = {"states": st["states"] + lc["distinct"] + cl["distinct"], "transitions": st["transitions"] + lc["generated"] + cl["generated"],
            "traces_validated_against_impl": st["ops_compared"],
            "samples": [{"t": t, "bits": "0x%x" % x} for t, x in consts[:4] + consts[len(consts) // 2:len(consts) // 2 + 4]],
@@ -201,6 +243,7 @@ def main():
                    "low half zero / non-zero, extremes}; integers by minimal LEB length and extremes) plus seeded random patterns; each "
                    "in three positions (function body, global initialiser, data/element segment offset) and four builds (gcc/clang x O0/O2); "
                    "distinct_nontrivial = number of distinct constants",
+           "big_segment_offsets_checked_outside_the_model": nbig,
            "constants": len(consts), "classes_hit": len(classes), "class_histogram": classes,
            "builds": [b["name"] for b in builds], "exhaustive": False}
     # the repository's own spec-suite corpus for this instruction family: model vs the suite's expectations, w2c2 vs model
